@@ -53,14 +53,28 @@ def edge_iff_guard(run, f, det):
     gk = strip_wrappers(tr.norm(tr.operand(gst["rv"]["ops"][0])))
     run.require(key == gk, "O15.1", "guard-key-is-inserted-key", "the guard would remove key %s but the inserted key is %s" % (show(gk), show(key)), "WaitForGuard(k) with k the inserted key", loc=det.loc(gbb))
     arm = c14._tracked_arm(det)
-    run.require(arm is not None and cfg.dominates(arm, ins), "O15.1", "untracked-callers-skip", "the insert is not dominated by 'a task-local actor identity exists': non-actor callers would be tracked",
+    if det.is_helper and arm is not None and arm != det.host_call:
+        dom_ok = det.host_cfg.dominates(arm, det.host_call)
+    elif det.is_helper:
+        dom_ok = arm is not None
+    else:
+        dom_ok = arm is not None and cfg.dominates(arm, ins)
+    run.require(dom_ok, "O15.1", "untracked-callers-skip", "the insert is not dominated by 'a task-local actor identity exists': non-actor callers would be tracked",
                 "insert only when CURRENT_ACTOR.try_with succeeded", loc=det.loc(ins))
     # the guard value reaches the long-lived local
     E = tr.norm(tr.rvalue(gst["rv"]))
+    hb, htr = b, tr
+    if det.is_helper:
+        from sendpaths import subterms as _st
+        ret = tr.norm(tr.local(0))
+        run.require(any(x == E for x in _st(ret)), "O15.1", "helper-returns-guard", "the helper %s does not return the WaitForGuard it creates" % b.defn, "the helper returns the guard")
+        hb, htr = det.host, det.host_tr
+        E = ("call", det.host_call, b.defn)
     holders = []
-    for l, ds in tr.defs.items():
-        t = tr.norm(tr.local(l))
-        ty = f.ty(b.locals[l]["ty"])
+    for l, ds in htr.defs.items():
+        t = htr.norm(htr.local(l))
+        ty = f.ty(hb.locals[l]["ty"])
+        b = hb
         if b.locals[l].get("name") and any(x.k == "adt" and x.defn == __import__("anchors").names(f).guard for x in ty.walk()):
             from sendpaths import subterms
             if any(x == E for x in subterms(t)):
@@ -70,10 +84,12 @@ def edge_iff_guard(run, f, det):
 
 def guard_lives_across_awaits(run, f, det):
     b, cfg = det.body, det.cfg
+    if det.is_helper and det.inserts:
+        b, cfg = det.host, det.host_cfg     # the guard is owned by the host coroutine after the helper call
     if not det.inserts or not b.layout:
         run.fail("O15.2", "layout", "no coroutine layout for the body containing the insert")
         return
-    ins = det.inserts[0]
+    ins = det.host_call if det.is_helper else det.inserts[0]
     cfgc = cfg_of(b)
     after = cfgc.reachable_from(cfgc.succ[ins])
     ys = [blk for blk in b.blocks if blk.term["k"] == "yield" and blk.idx in after]
@@ -174,6 +190,8 @@ def panic_condition(run, f, det):
     dp = [p for p in det.panics if not any(m.startswith("tracing::") for m in f.span(b.blocks[p].term["span"]).macros)]
     # the deliberate panic: reachable from the tracked arm
     arm = c14._tracked_arm(det)
+    if det.is_helper and arm is not None:
+        arm = 0     # inside the helper every path starts at its entry
     if not run.require(arm is not None and len(det.has_path) == 1, "O15.4", "anchors", "cannot find the tracked arm / has_path call", "found"):
         return
     hp = det.has_path[0]
